@@ -65,8 +65,8 @@ Example C35_kwvar_example :
           [83;69;76;69;67;84;32;65;44;32;39;36;46;116;39;32;70;82;79;77;32;84].
 Proof.
   split.
-  - unfold kwvar. cbn. repeat split.
-  - unfold kwvar. cbn. intros H. do 13 (destruct H as [_ H]). destruct H as [H _]. discriminate H.
+  - vm_compute. repeat split.
+  - vm_compute. intros H. do 13 (destruct H as [_ H]). destruct H as [H _]. discriminate H.
 Qed.
 
 (* non-vacuity: the model parses a join query and an explain; and the length
